@@ -3,6 +3,8 @@ pub open spec fn acc_all<K, N, E>() -> spec_fn(Edge<K, N, E>) -> bool { |e: Edge
 // the filter `|Edge(_, v, _)| !set.contains(v.key())`
 pub open spec fn acc_excl<K, N, E>(s: Set<K>) -> spec_fn(Edge<K, N, E>) -> bool { |e: Edge<K, N, E>| !s.contains(e.1.k()) }
 
+pub open spec fn acc_excl_src<K, N, E>(s: Set<K>) -> spec_fn(Edge<K, N, E>) -> bool { |e: Edge<K, N, E>| !s.contains(e.0.k()) }
+
 // C01 in the frozen world: every stored edge u -> v is listed in u's outbound and in v's inbound list
 pub open spec fn mirror_ok<K, N, E>() -> bool {
     &&& forall|u: Node<K, N, E>, i: int| universe::<K, N, E>().contains(u) && 0 <= i < u.outs().len() ==> in_adj(rev(#[trigger] u.outs()[i]), adj_in::<K, N, E>())
